@@ -72,21 +72,22 @@ def IHeap.promote : Nat → IHeap → Nat → Outcome IHeap
       | .diverge => .diverge
     else .ok h
 
+/-- `if j < h.n && h.compare(j+1, j) < 0 { j++ }` -/
+def IHeap.smallerChild (h : IHeap) (j : Nat) : Outcome Nat :=
+  if j < h.n then
+    match h.compare (j + 1) j with
+    | .ok c => .ok (if c < 0 then j + 1 else j)
+    | .panic => .panic
+    | .diverge => .diverge
+  else .ok j
+
 /-- `for j := 2*k; j <= h.n; k, j = j, 2*j { if j < h.n && compare(j+1, j) < 0 { j++ };
      if compare(k, j) < 0 { break }; swap(k, j) }` -/
 def IHeap.demote : Nat → IHeap → Nat → Outcome IHeap
   | 0, _, _ => .diverge
   | fuel + 1, h, k =>
-    let j := 2 * k
-    if j ≤ h.n then
-      let pick : Outcome Nat :=
-        if j < h.n then
-          match h.compare (j + 1) j with
-          | .ok c => .ok (if c < 0 then j + 1 else j)
-          | .panic => .panic
-          | .diverge => .diverge
-        else .ok j
-      match pick with
+    if 2 * k ≤ h.n then
+      match h.smallerChild (2 * k) with
       | .ok j =>
         match h.compare k j with
         | .ok c =>
